@@ -3,6 +3,7 @@ package main
 import (
 	"fmt"
 	"math/rand"
+	"strings"
 
 	"github.com/GuanceCloud/platypus/pkg/parser"
 
@@ -46,6 +47,7 @@ func (c06) Plan(tier string, seed int64) []mon.Workload {
 		{Name: "trees", N: trees},
 		{Name: "extended-layout", N: ext},
 		{Name: "after-rejected", N: ext},
+		{Name: "deep-groups", N: int64(len(c06DeepKinds) * len(c06DeepLevels)), Exhaustive: true},
 	}
 }
 
@@ -105,6 +107,8 @@ func hasBreakInsideExpr(src string, l []*gt.T) bool {
 
 func (k c06) build(c *mon.Ctx, workload string, i int64) (stmts []*gt.T, layouts []*gt.Layout) {
 	switch workload {
+	case "deep-groups":
+		return gt.ParenthesizeStmts(c06Deep(i)), []*gt.Layout{nil, {R: c.Sub("lay"), Breaks: true, Extended: true}, {R: c.Sub("lay2"), Compact: true}}
 	case "pairs":
 		stmts = []*gt.T{c06Pair(i)}
 		layouts = []*gt.Layout{nil, {R: c.Sub("lay"), Breaks: true}, {R: c.Sub("lay2"), Compact: true}}
@@ -132,6 +136,63 @@ func (k c06) build(c *mon.Ctx, workload string, i int64) (stmts []*gt.T, layouts
 func (k c06) Describe(c *mon.Ctx, workload string, i int64) any {
 	stmts, _ := k.build(c, workload, i)
 	return map[string]any{"source": gt.Print(stmts, nil), "tree": gt.DumpStmts(stmts)}
+}
+
+// deep-groups (exhaustive): groups nested 8..120 deep - lists, maps, parens,
+// calls, index expressions, slices, blocks, and mixtures that start with
+// each kind - still parse to exactly the tree written.
+var c06DeepKinds = []string{"list", "map", "paren", "call", "index", "mixed-list-first", "mixed-paren-first", "mixed-map-first", "blocks", "blocks+lists"}
+var c06DeepLevels = []int{8, 16, 31, 32, 33, 34, 48, 63, 64, 65, 66, 100, 120}
+
+func c06Deep(i int64) []*gt.T {
+	kind := c06DeepKinds[int(i)%len(c06DeepKinds)]
+	depth := c06DeepLevels[int(i)/len(c06DeepKinds)]
+	var e *gt.T = gt.Ident("a")
+	wrap := func(k string, e *gt.T) *gt.T {
+		switch k {
+		case "list":
+			return gt.List(gt.Int(1), e)
+		case "map":
+			return gt.Map(gt.Str("k"), e)
+		case "paren":
+			return gt.Paren(gt.Bin("+", e, gt.Int(1)))
+		case "call":
+			return gt.Call("f", e, gt.Int(2))
+		default:
+			return gt.Index("x", e)
+		}
+	}
+	if strings.HasPrefix(kind, "blocks") {
+		body := []*gt.T{gt.Assign("=", gt.Ident("y"), gt.Int(1))}
+		for d := 0; d < depth; d++ {
+			var cond *gt.T = gt.Ident("c")
+			if kind == "blocks+lists" && d%2 == 0 {
+				cond = gt.Bin("in", gt.Ident("c"), gt.List(gt.List(gt.Int(int64(d)))))
+			}
+			if d%3 == 2 {
+				body = []*gt.T{gt.ForIn("e", gt.Ident("l"), body...)}
+			} else {
+				body = []*gt.T{gt.If(cond, body...)}
+			}
+		}
+		return body
+	}
+	for d := 0; d < depth; d++ {
+		k := kind
+		if strings.HasPrefix(kind, "mixed") {
+			order := []string{"list", "paren", "map", "call", "index"}
+			switch kind {
+			case "mixed-paren-first":
+				order = []string{"paren", "index", "list", "map", "call"}
+			case "mixed-map-first":
+				order = []string{"map", "call", "paren", "list", "index"}
+			}
+			// the OUTERMOST group is order[0]: d counts from the inside
+			k = order[(depth-1-d)%len(order)]
+		}
+		e = wrap(k, e)
+	}
+	return []*gt.T{gt.Assign("=", gt.Ident("r"), e)}
 }
 
 // after-rejected: the same round trip, but every parse is preceded by the
